@@ -147,9 +147,49 @@ def options(ctx, rule="C13.options"):
     ctx.floor(rule, 4)
 
 
+def neg_slice(ctx, rule="C13.undo"):
+    ctx.explain(f"{rule}: (slice) `x[-n:]` is the WHOLE sequence when n == 0: in the time-domain modules every slice whose lower "
+                "bound is the negation of a non-constant is reached only on paths on which that quantity is known to be non-zero "
+                "(roll() deletes `register[-added:]`: with nothing added it would delete every subsystem).")
+    from .common_guard import path_facts, rel
+    n = 0
+    for relp in ("tdm/program.py", "tdm/utils.py"):
+        for f in ctx.tree.module(relp).functions.values():
+            cfg = cfg_of(f.node)
+            for sub in walk_no_nested(f.node):
+                if not isinstance(sub, ast.Subscript):
+                    continue
+                sls = sub.slice.elts if isinstance(sub.slice, ast.Tuple) else [sub.slice]
+                for sl in sls:
+                    if isinstance(sl, ast.Slice) and isinstance(sl.lower, ast.UnaryOp) and isinstance(sl.lower.op, ast.USub) \
+                            and not isinstance(sl.lower.operand, ast.Constant) and sl.upper is None:
+                        q = ast.unparse(sl.lower.operand).replace(" ", "")
+                        ids = cfg.node_of_expr(sub)
+                        if not ids:
+                            continue
+                        n += 1
+                        ok = False
+                        for a, v in path_facts(cfg, ids[0]):
+                            r_ = rel(a, v)
+                            ta = ast.unparse(a).replace(" ", "")
+                            if ta == q and v:
+                                ok = True  # truthy
+                            if r_ is not None and r_[0] in (">", "!=") and q in (ast.unparse(r_[1]).replace(" ", ""),
+                                                                                  ast.unparse(r_[2]).replace(" ", "")) \
+                                    and any(isinstance(x, ast.Constant) and x.value == 0 for x in (r_[1], r_[2])):
+                                ok = r_[0] == "!=" or ast.unparse(r_[1]).replace(" ", "") == q
+                            if r_ is not None and r_[0] == ">=" and ast.unparse(r_[1]).replace(" ", "") == q and \
+                                    isinstance(r_[2], ast.Constant) and isinstance(r_[2].value, (int, float)) and r_[2].value >= 1:
+                                ok = True
+                        ctx.ob(rule, f.site, ok, "" if ok else f"`{ast.unparse(sub)[:50]}` is not guarded by `{q} > 0`: for {q} == 0 "
+                               "the slice is the whole sequence", role="neg-slice-guard", line=sub.lineno)
+    return n
+
+
 def rules(ctx):
     options(ctx)
     op_clone(ctx)
     undo(ctx)
+    neg_slice(ctx)
     lock(ctx)
     order(ctx)
